@@ -14,7 +14,7 @@ from common import Rng, REPO, VERIF
 
 PID = "C12"
 NAMES = ["check_image", "allocations", "references", "forward_buckets", "backward_buckets", "character_records",
-         "cell_records", "forward_pass_chains", "backward_pass_chains"]
+         "cell_records", "forward_pass_chains", "backward_pass_chains", "every_rule_is_linked"]
 
 
 def to_model(line):
@@ -55,6 +55,8 @@ def to_model(line):
             out.append("IP %s %s" % (w[1], elems(w[2:], False)))
         elif w[0] == "PB":
             out.append("IQ %s %s" % (w[1], elems(w[2:], False)))
+        elif w[0] == "RU":
+            out.append("IU " + " ".join(w[1:7]))
         elif w[0] == "CYCLE":
             out.append("IR 999999 1 0")
     out.append("IX %s" % head["used"])
@@ -97,6 +99,12 @@ def run(chk):
         for cut in (0, 1, 5, 40, 150, len(rules)):
             cmds.append(("grown:%d:%d" % (i, cut), "J %s | %s" % (base, " ; ".join(rules[:cut])), "\n".join(rules[:cut])))
     outs = common.run_stream(exe, [], [c for _, c, _ in cmds], env=env, timeout=900)
+    # the small tables again with the image moved to a fresh block on EVERY allocation (hook): a pointer into the image kept
+    # across an allocation is then stale at once (ASan reports the use), instead of only when a growth happens to hit it
+    small = [(k + ":moved", c, t) for k, c, t in cmds if not k.startswith("shipped:")]
+    small += [("shipped:" + n + ":moved", "I " + n, None) for n in ("en-us-comp6.ctb", "de-g0.utb", "en-us-g1.ctb")]
+    outs += common.run_stream(exe, ["M 1"], [c for _, c, _ in small], env=env, timeout=1800)
+    cmds = cmds + small
     for (key, cmd, text), o in zip(cmds, outs):
         if isinstance(o, tuple):
             chk.count(key)
@@ -113,7 +121,8 @@ def run(chk):
         chk.tally(key.split(":")[0])
         chk.tally("allocations_checked", n_alloc)
         chk.tally("references_checked", sum(1 for x in ml if x.startswith("IR")))
-        if res[0] == "1":
+        chk.tally("rule_objects_checked", sum(1 for x in ml if x.startswith("IU")))
+        if res[0] == "1" and res[-1] == "1":
             chk.cov["traces_validated_against_impl"] += 1
             if n_alloc > 50:
                 chk.sample(dict(table=key, used_bytes=int(head["used"]), allocations=n_alloc, references=sum(1 for x in ml if x.startswith("IR"))), cap=4)
@@ -124,7 +133,8 @@ def run(chk):
     shutil.rmtree(work, ignore_errors=True)
     chk.cov["rule"] = ("images dumped by the walker (allocation extents from the arena hook): a sample (thorough: all) of the shipped top-level "
                        "tables, a kitchen-sink table, generated F and multipass tables (colliding buckets), and tables grown by 0/1/5/40/150/all of "
-                       "~330 run-time additions (several reallocations); each judged by the extracted verified checker; distinct = table; "
+                       "~330 run-time additions (several reallocations), the small ones a second time with the image moved on every allocation (hook); "
+                       "every rule object reported by the rule hook must be linked in the chains where lookups search for it; each judged by the extracted verified checker; distinct = table; "
                        "non-trivial = more than 20 allocations")
     chk.cov["gen_status"] = gen
     chk.cov["checker_cmd"] = "make -C coq Properties/C12.vo (coqc 8.16.1)"
